@@ -611,6 +611,7 @@ func checkC09(r *Run) {
 						cse := &c09Case{cs: cs, lang: lang, b: b, obj: obj, kind: "single", doc: doc, calls: []c09Call{cl}, rtID: rtID, ctor: ctor}
 						q, why := mkReq(cse)
 						if why != "" {
+							c09Mismatch(r, cs, lang, b, cl.Option, why)
 							r.Count("python_sequences_not_expressible/"+afterColon(why), 1)
 							continue
 						}
@@ -1142,8 +1143,9 @@ func c09Extras(caps amCaps) []corpusExtra {
 		{"merge-2", mkAM(), v("  - merge_into: {destination: Panel, source: Defaults, under_path: fieldConfig.defaults}\n", ""), map[string]string{
 			"Panel.custom": "fieldConfig.defaults.custom", "Panel.unit": "fieldConfig.defaults.unit"}},
 		{"append-unfold", mkAM(), v("", "  - array_to_append: {by_name: Panel.tags}\n  - array_to_append: {by_name: Panel.items}\n  - unfold_boolean: {by_name: Panel.visible, true_as: show, false_as: hide}\n"), map[string]string{
-			"Panel.tags": "tags", "Panel.items": "items", "Panel.show": "visible", "Panel.hide": "visible"}},
-		{"append-union", mkAM(), v("", "  - array_to_append: {by_name: Panel.elements}\n  - disjunction_as_options: {by_name: Panel.elements}\n"), nil},
+			"Panel.tags": "tags+", "Panel.items": "items+", "Panel.show": "visible", "Panel.hide": "visible"}},
+		{"append-union", mkAM(), v("", "  - array_to_append: {by_name: Panel.elements}\n  - disjunction_as_options: {by_name: Panel.elements}\n"), map[string]string{
+			"Panel.row": "elements+", "Panel.graph": "elements+", "Panel.Row": "elements+", "Panel.Graph": "elements+"}},
 		{"append-union-alias", mkAM(), v("", "  - array_to_append: {by_name: Panel.elements}\n  - disjunction_as_options: {by_name: Panel.elements}\n  - duplicate: {by_name: Panel.row, as: addRow}\n  - array_to_append: {by_name: Panel.items}\n  - duplicate: {by_name: Panel.items, as: addItem}\n"), nil},
 		{"index-args", mkAM(), v("", "  - map_to_index: {by_name: Panel.byName}\n  - map_to_index: {by_name: Panel.limits}\n  - struct_fields_as_arguments: {by_name: Panel.leaf}\n  - struct_fields_as_arguments: {by_name: Panel.span}\n"), map[string]string{
 			"Panel.byName": "byName.", "Panel.limits": "limits.", "Panel.leaf": "leaf.name,leaf.weight,leaf.on", "Panel.span": "span.from,span.quick,span.to,span.marks"}},
@@ -1165,6 +1167,9 @@ func c09Intent(r *Run, cs *corpusSchema, lang string, b ast.Builder, obj *amObje
 			p := strings.Join(pathIdents(as.Path), ".")
 			if len(as.Path) > 0 && as.Path[len(as.Path)-1].Index != nil {
 				p = strings.TrimSuffix(p, ".") + "."
+			}
+			if as.Method == ast.AppendAssignment {
+				p += "+"
 			}
 			ps = append(ps, p)
 		}
@@ -1204,4 +1209,15 @@ var c09ArgNameRe = regexp.MustCompile(`(len\()?[A-Za-z_][A-Za-z0-9_]*(\))? must 
 // c09MaskErr removes argument names from Python constraint messages so that keys name the rule, not the field.
 func c09MaskErr(msg string) string {
 	return maskMsg(c09ArgNameRe.ReplaceAllString(msg, "${1}arg${2} must be"))
+}
+
+
+// c09Mismatch: the value an accepted document holds at the path an option writes does not even have the shape of
+// the option's argument (an array where the argument is a struct, …): the IR handed to the jennies pairs an
+// argument with a target it cannot fill. Reported once per option kind; Python-only limitations are not mismatches.
+func c09Mismatch(r *Run, cs *corpusSchema, lang string, b ast.Builder, option, why string) {
+	if !strings.Contains(why, "with non-object value") && !strings.Contains(why, "with non-array value") {
+		return
+	}
+	r.Violation("ir/argument-does-not-fit-its-target/"+cs.Extra+"/"+afterColon(why), fmt.Sprintf("%s: option %s.%s takes an argument that the value stored at its target path can never be (%s)", lang, b.Name, option, why), map[string]any{"format": cs.Format, "veneers": cs.Veneers, "language": lang, "builder": b.Name, "option": option, "schema": string(cs.SchemaText)})
 }
